@@ -31,7 +31,7 @@ SHAPE_INDEPENDENT = {
     "ENCERR-1", "PROC-1", "DSU-1", "KEYTRUTH-1", "ITERSELF-1", "INJ-6", "ANYELEM-1", "ENVDEP-1", "LOCK-1", "THREAD-1", "SHARED-1",
     "ASSERT-1", "LATE-1", "GLOB-1", "GLOB-1g", "GLOB-1c", "GLOB-1r", "ITER-1", "ITER-2", "GENCALL-1", "MEMOKEY-1",
     "EXITCM-1", "CONVPURE-1", "GENPURE-1", "PURE-1", "INFPURE-1", "SIG-1", "LOAD-5", "ARGP-1",
-    "EQHASH-1", "SHADOW-1", "SHADOW-2", "COVER-1", "SIBCONV-1", "OPTFLOW-1", "OPTFLOW-4",
+    "EQHASH-1", "SHADOW-1", "SHADOW-2", "COVER-1", "SIBCONV-1", "OPTFLOW-1", "OPTFLOW-4", "DEFARG-1", "STALE-1",
 }
 
 
